@@ -185,12 +185,15 @@ func C10(c *Ctx, r *report.Run) error {
 			both = append(both, s)
 		}
 	}
-	w, err := ws.Build(c.Bins, both, ws.Options{Variant: ws.HC, Tag: "rtHC10", Harness: true})
+	w, err := ws.Build(c.Bins, both, ws.Options{Variant: ws.HC, Tag: "rtHC10ts", Harness: true, TS: true})
 	if err != nil {
 		return err
 	}
 	units := blocked(r, w, "C10")
 	if err := RunHarness(c, w, r, "c10", units, nil, specIndex(w)); err != nil {
+		return err
+	}
+	if err := c10TS(c, r, w, units); err != nil {
 		return err
 	}
 	if len(serverOnly) > 0 {
@@ -208,7 +211,8 @@ func C10(c *Ctx, r *report.Run) error {
 	r.Transitions = r.Evaluations
 	r.Traces = r.Evaluations
 	r.Assumptions = []string{"M-pipe/M-err as in DESIGN appendix A: which of several offending URL/header names is reported is not fixed; Content-Type is asserted only when the hook did not call WriteHeader; a wrapped custom error may be serialised either as the custom message or as Error{message}",
-		"rule semantics come from the protovalidate stand-in (shared by server and oracle); what is checked is status, encoding and the conversion to dotted field paths"}
+		"rule semantics come from the protovalidate stand-in (shared by server and oracle); what is checked is status, encoding and the conversion to dotted field paths",
+		"TS side (node bridge): every un-hooked JSON error response of the Go server is handed to the generated TS client (400 with violations -> ValidationError with the same violations; anything else -> ApiError with the same status and the body); the generated TS server is given a failing handler (-> 500 carrying the message); TS speaks JSON only and has no error hook"}
 	return nil
 }
 
